@@ -293,6 +293,23 @@ def check_cleanup(ctx, R="C14.cleanup"):
         ctx.ok(R, dis[0], "every object of the simulation has its proxy disabled in the cleanup")
     else:
         ctx.finding(R, tr, "proxy disabling", "the cleanup no longer disables the dynamic proxy of every object in self.objects")
+    # the behaviours stopped by the cleanup are those of the scene's own objects: they are read after the proxies are gone
+    # (through an enabled proxy `agent.behavior` is whatever an `override` put there for this run; the scene's own behaviour
+    # object, started at the beginning of the run, would stay marked as running and the scene could not be simulated again)
+    stops = [s for s in ast.walk(ast.Module(body=tr.finalbody, type_ignores=[])) if isinstance(s, ast.For) and isinstance(s.target, ast.Name) and any(isinstance(c, ast.Call) and unparse(c.func) == f"{s.target.id}.behavior._stop" for c in ast.walk(s))]
+    if stops and dis:
+        if all((d.lineno, d.col_offset) < (st_.lineno, st_.col_offset) for d in dis[:1] for st_ in stops):
+            ctx.ok(R, stops[0], "agents' behaviours are stopped after the dynamic proxies were disabled (the scene's own behaviour objects)")
+        else:
+            ctx.finding(
+                R,
+                stops[0],
+                "behaviours stopped through the proxies",
+                "the cleanup stops `agent.behavior` while the dynamic proxies are still enabled: for an object whose behaviour was overridden during the run this is the overriding "
+                "behaviour; the scene's own behaviour object stays marked as running, and simulating the same scene again fails with 'tried to reuse behavior object'",
+            )
+    elif not stops:
+        ctx.finding(R, tr, "behaviour stopping", "the cleanup no longer stops the behaviours of the agents that are still running")
     if "self.objects.append(obj)" in t:
         i_app = t.find("self.objects.append(obj)")
         if i_app < i_cr or i_app < t.find("enableDynamicProxyFor(obj)") + 40:
